@@ -90,6 +90,7 @@ impl Prop for C14 {
             "library_execution_error_below_minimum",
             "library_execution_error_exponent_notation",
             "code_raised_against_full_queue",
+            "api_table_value_faults",
         ];
         v.into_iter().map(String::from).collect()
     }
@@ -116,6 +117,7 @@ impl Prop for C14 {
                 controllers: 1,
                 tree: sweep_tree(),
                 plain488: false,
+                no_mav: false,
             };
             let mut t = base_trace("C14", seed, run, if full { "sweep_full_queue" } else { "sweep" }, cfg.clone());
             let tc = TreeCtx::new(&cfg.tree);
@@ -178,6 +180,18 @@ impl Prop for C14 {
             }));
             return t;
         }
+        if run == SWEEP + 1 || (tier == Tier::Tiny && run == 201) {
+            // conversions and resolvers that are public API but sit behind no mandated command:
+            // a fixed table of value faults and type faults (see api_table())
+            let cfg = Config {
+                queue: QueueCfg::Vec,
+                controllers: 1,
+                tree: sweep_tree(),
+                plain488: false,
+                no_mav: false,
+            };
+            return base_trace("C14", seed, run, "api_table", cfg);
+        }
         // ---- monitor: library-raised errors
         let mut rng = Rng::new(mix(seed, "C14-mon", run));
         let mut trng = Rng::new(mix(seed, "C14-tree", run / 64));
@@ -187,6 +201,7 @@ impl Prop for C14 {
             controllers: 1,
             tree,
             plain488: false,
+            no_mav: false,
         };
         let mut t = base_trace("C14", seed, run, "monitor", cfg.clone());
         let tc = TreeCtx::new(&cfg.tree);
@@ -287,6 +302,9 @@ impl Prop for C14 {
         if trace.mode == "sweep" || trace.mode == "sweep_full_queue" {
             return check_sweep(trace, stats);
         }
+        if trace.mode == "api_table" {
+            return api_table(stats);
+        }
         struct H;
         impl StepHandler for H {
             fn on_send(&mut self, world: &mut World, before: &ModelState, i: usize, s: &SendStep, o: &SendObs, stats: &mut Stats, out: &mut Vec<Finding>) {
@@ -346,6 +364,117 @@ impl Prop for C14 {
         }
         drive(trace, stats, &mut H)
     }
+}
+
+/// Value faults raised by public conversions / resolvers that no mandated command reaches:
+/// each must be an execution error (-200..-299); the type faults next to them command errors.
+fn api_table(stats: &mut Stats) -> Vec<Finding> {
+    use scpi::error::Error;
+    use scpi::parser::expression::channel_list::{ChannelList, Token as ChTok};
+    use scpi::parser::tokenizer::Token;
+    use scpi_contrib::scpi1999::NumericValue;
+    let mut out = Vec::new();
+    fn first_spec(expr: &'static [u8]) -> Option<scpi::parser::expression::channel_list::ChannelSpec<'static>> {
+        match ChannelList::new(expr)?.next()? {
+            Ok(ChTok::ChannelSpec(s)) => Some(s),
+            _ => None,
+        }
+    }
+    fn err_of<T>(r: core::result::Result<T, Error>) -> Option<i16> {
+        r.err().map(|e| e.get_code())
+    }
+    // (name, observed error code (None = no error), value fault?)
+    let mut rows: Vec<(&str, Option<i16>, bool)> = Vec::new();
+    let r = std::panic::catch_unwind(|| {
+        let mut rows: Vec<(&str, Option<i16>, bool)> = Vec::new();
+        if let Some(s) = first_spec(b"@-5") {
+            rows.push(("negative channel as usize", err_of(usize::try_from(s)), true));
+        }
+        if let Some(s) = first_spec(b"@-1!2") {
+            rows.push(("negative first dimension as (usize,usize)", err_of(<(usize, usize)>::try_from(s)), true));
+        }
+        if let Some(s) = first_spec(b"@1!-2") {
+            rows.push(("negative second dimension as (usize,usize)", err_of(<(usize, usize)>::try_from(s)), true));
+        }
+        if let Some(s) = first_spec(b"@1!2!-3") {
+            rows.push(("negative third dimension as (usize,usize,usize)", err_of(<(usize, usize, usize)>::try_from(s)), true));
+        }
+        let nv = |t: Token<'static>| NumericValue::<f32>::try_from(t);
+        if let Ok(v) = nv(Token::CharacterProgramData(b"UP")) {
+            rows.push(("numeric_value UP resolved without step support", err_of(v.finish_with(10.0, -10.0)), true));
+        }
+        if let Ok(v) = nv(Token::CharacterProgramData(b"DOWN")) {
+            rows.push(("numeric_value DOWN resolved without step support", err_of(v.finish_with(10.0, -10.0)), true));
+        }
+        if let Ok(v) = nv(Token::CharacterProgramData(b"DEF")) {
+            rows.push(("numeric_value DEFault without a default", err_of(v.finish_with(10.0, -10.0)), true));
+        }
+        if let Ok(v) = nv(Token::DecimalNumericProgramData(b"11")) {
+            rows.push(("numeric_value above its maximum", err_of(v.finish_with(10.0, -10.0)), true));
+        }
+        rows.push(("boolean from an unknown keyword", err_of(bool::try_from(Token::CharacterProgramData(b"MAYBE"))), true));
+        rows.push((
+            "enum from an unknown mnemonic",
+            err_of(crate::device::SimEnum::try_from(Token::CharacterProgramData(b"POTATO"))),
+            true,
+        ));
+        rows.push((
+            "voltage with a suffix of another quantity",
+            err_of(scpi::units::ElectricPotential::try_from(Token::DecimalNumericSuffixProgramData(b"1", b"HZ"))),
+            true,
+        ));
+        rows.push(("u8 from 300", err_of(u8::try_from(Token::DecimalNumericProgramData(b"300"))), true));
+        rows.push(("i8 from -129", err_of(i8::try_from(Token::DecimalNumericProgramData(b"-129"))), true));
+        rows.push(("u16 from #H10000", err_of(u16::try_from(Token::NonDecimalNumericProgramData(0x10000))), true));
+        // type faults
+        rows.push(("u8 from a string", err_of(u8::try_from(Token::StringProgramData(b"x"))), false));
+        rows.push(("f32 from a number with suffix", err_of(f32::try_from(Token::DecimalNumericSuffixProgramData(b"1", b"V"))), false));
+        rows.push(("enum from a number", err_of(crate::device::SimEnum::try_from(Token::DecimalNumericProgramData(b"1"))), false));
+        rows.push(("numeric list from a string", err_of(scpi::parser::expression::numeric_list::NumericList::try_from(Token::StringProgramData(b"1")).map(|_| ())), false));
+        rows
+    });
+    match r {
+        Ok(v) => rows = v,
+        Err(_) => {
+            out.push(Finding::new("C01.panic", crate::props::panic_signature(&crate::exec::take_panic()), 0, "a conversion in the C14 API table panicked"));
+            return out;
+        }
+    }
+    stats.add("steps", rows.len() as u64);
+    stats.probe("api_table_value_faults");
+    for (name, code, value_fault) in rows {
+        stats.state_str(&format!("api|{}|{:?}", name, code));
+        let ok = match code {
+            // no error raised: whether one should have been is the business of the value-level
+            // properties (C17/C19, not applicable here); C14 only judges the class of raised errors
+            None => true,
+            Some(c) => {
+                if value_fault {
+                    is_execution_error(c)
+                } else {
+                    is_command_error(c)
+                }
+            }
+        };
+        if !ok {
+            out.push(Finding::new(
+                "C14.library_error_class",
+                format!("{}_reported_as_{}", name.replace(' ', "_").replace(['(', ')', ','], ""), code.map(|c| c.to_string()).unwrap_or("ok".into())).replace('-', "m"),
+                0,
+                format!(
+                    "{}: the library reports {:?}; {} faults belong to {}",
+                    name,
+                    code,
+                    if value_fault { "value" } else { "type" },
+                    if value_fault { "-200..-299" } else { "-100..-199" }
+                ),
+            ));
+        }
+    }
+    if stats.samples.is_empty() {
+        stats.samples.push("\"api table: value faults of public conversions (channel spec tuples, numeric_value resolution, enum, bool, unit suffix) and type faults\"".to_string());
+    }
+    out
 }
 
 fn check_sweep(trace: &Trace, stats: &mut Stats) -> Vec<Finding> {
